@@ -120,6 +120,7 @@ static int cmd_batch(int argc, char **argv)
                 nondet++;
                 QJsonObject o;
                 o["kind"] = "nondeterminism";
+                o["both_ok"] = r.ok && r2.ok;
                 o["index"] = (qint64)index;
                 o["hash1"] = QString::number(r.hash, 16);
                 o["hash2"] = QString::number(r2.hash, 16);
